@@ -35,7 +35,7 @@ import vlib
 from vlib import cz, cnat, cbool, clist, copt
 
 HEADER = ("From Coq Require Import List ZArith Bool.\nImport ListNotations.\n"
-          "From QV Require Import Model.C13 Model.C13_inst.\nLocal Open Scope Z_scope.\n")
+          "From QV Require Import Model.C13 Model.C13_inst Model.C13_conf Model.C13_mix.\nLocal Open Scope Z_scope.\n")
 TU = 64            # time unit of the scripted problems: 1/64
 EPS_EXP = 34       # mc_corr_eps = 2^-34 in the scripted Monte-Carlo problem
 
@@ -356,7 +356,10 @@ def k2_case(rng):
         for _k in range(rng.choice([1, 2, 3, 5])):
             t += rng.choice([1, 4, 7, 8, 16])
             ts.append(t)
-        hist.append((t0, rng.randrange(D), ts, rng.random() < 0.12))
+        nj = rng.random() < 0.12
+        # jump_prob_floor (improved sampling): a multiple of 2^-20, as is the first draw
+        fl = rng.randrange(1, 1 << 20) if (not nj and rng.random() < 0.3) else 0
+        hist.append((t0, rng.randrange(D), ts, nj, fl))
         st = []
         for _k in range(rng.choice([2, 6, 12, 30])):
             r = rng.random()
@@ -366,6 +369,8 @@ def k2_case(rng):
                 st.append((1 << (53 - rng.choice([2, 4, 6]))) + rng.choice([-1, 1]))
             else:
                 st.append(rng.getrandbits(53))
+        if fl:
+            st[0] = rng.choice([rng.randrange(0, 1 << 20), 1 << rng.randint(0, 19)]) << 33
         streams.append(st)
     return {"prob": prob, "hist": hist, "streams": streams}
 
@@ -378,10 +383,13 @@ def k2_impl(case):
             "mc_corr_eps": 2.0 ** (-EPS_EXP)}
     integ = MCIntegrator(FakeODE(prob), FakeSystem(prob), opts)
     out = []
-    for (t0, l0, ts, nj), st in zip(case["hist"], case["streams"]):
+    for h, st in zip(case["hist"], case["streams"]):
+        t0, l0, ts, nj = h[:4]
+        fl = h[4] if len(h) > 4 else 0
         g = ScriptGen(st, 1 << 52)
         try:
-            integ.set_state(t0 / TU, _enc(D, l0, 0), g, no_jump=nj)
+            integ.set_state(t0 / TU, _enc(D, l0, 0), g, no_jump=nj,
+                            jump_prob_floor=fl / float(1 << 20))
             states = []
             for t, y in integ.run([t0 / TU] + [x / TU for x in ts]):
                 lv, e = _dec(y)
@@ -401,8 +409,9 @@ def k2_expr(case):
         clist(c["w"], cz), clist(c["tgt"], lambda x: copt(x, cnat)), clist(c["amp"], cz)))
     prob = "{| p_h := %s; p_rate := %s; p_chans := %s |}" % (cz(p["h"]), clist(p["rate"], cz), chans)
     ls = clist(case["streams"], lambda st: clist(st, lambda k: "(%d * 2^1147)" % k))
-    hs = clist(case["hist"], lambda h: "(%s, %s, %s, %s)" % (cz(h[0]), cnat(h[1]), clist(h[2], cz),
-                                                          cbool(h[3])))
+    hs = clist(case["hist"], lambda h: "(%s, %s, %s, %s, %s)" % (
+        cz(h[0]), cnat(h[1]), clist(h[2], cz), cbool(h[3]),
+        "(%d * 2^1180)" % (h[4] if len(h) > 4 else 0)))
     return "i_observe %s %s %s" % (prob, ls, hs)
 
 
@@ -555,6 +564,234 @@ def k3_canon_model(v, ncol):
                 p.append((t, y, [0] * ncol if nz is None else list(nz[1])))
         out.append(((p, list(calls)), dt))
     return out
+
+
+# ======================================================================
+# K4  args / options propagation (Model/C13_conf.v)
+# ======================================================================
+def _cf(t, g, h):
+    return g + h / 1024.0
+
+
+def _rate1(t, g, h):
+    return (g + h / 1024.0) - 8.0
+
+
+def _dec_cf(x, exact=True):
+    n = int(round(float(x) * 1024))
+    if exact and n / 1024.0 != float(x):
+        raise AssertionError("value %r is not a scripted coefficient" % (x,))
+    return (n // 1024, n % 1024)
+
+
+def k4_case(rng):
+    kind = rng.choice(["mc", "mc", "nm"])
+
+    def part():
+        r = rng.random()
+        g, h = rng.randint(1, 7), rng.randint(0, 15)
+        return [None, None] if r < 0.25 else [g, None] if r < 0.5 else [None, h] if r < 0.7 else [g, h]
+    evs = []
+    for _ in range(rng.choice([1, 2, 3, 4, 5])):
+        r = rng.random()
+        if r < 0.35:
+            t0 = rng.choice([0, 16])
+            evs.append(["run", part(), [t0 + 16 * (i + 1) for i in range(rng.choice([1, 2]))], t0])
+        elif r < 0.5:
+            evs.append(["step", part()])
+        elif r < 0.75:
+            evs.append(["item", rng.random() < 0.5, rng.randint(5, 20)])
+        else:
+            sv = rng.choice([None, rng.randint(5, 20)])
+            ovl = rng.choice([None, None, rng.randint(5, 20)])
+            evs.append(["dict", sv, ovl])
+    if evs[-1][0] not in ("run", "step"):
+        evs.append(["run", part(), [16, 32], 0])
+    return {"kind": kind, "g": rng.randint(1, 7), "h": rng.randint(0, 15),
+            "so": rng.randint(5, 20), "oo": rng.randint(5, 20), "evs": evs}
+
+
+def k4_impl(case):
+    import qutip as qt
+    a0 = {"g": case["g"], "h": case["h"]}
+    H = qt.sigmaz() + qt.QobjEvo([qt.sigmax(), _cf], args=dict(a0))
+    opt = {"progress_bar": "", "method": "adams", "norm_tol": 2.0 ** -case["so"],
+           "atol": 2.0 ** -case["oo"], "keep_runs_results": True}
+    nm = case["kind"] == "nm"
+    if nm:
+        solver = qt.NonMarkovianMCSolver(
+            H, [(qt.sigmam(), qt.coefficient(_rate1, args=dict(a0))), (qt.sigmap(), 0.5)],
+            options=opt)
+    else:
+        solver = qt.MCSolver(H, [qt.QobjEvo([qt.sigmam(), _cf], args=dict(a0))], options=opt)
+    psi = qt.basis(2, 0)
+
+    def lg(x):
+        m, e = math.frexp(float(x))
+        if m != 0.5:
+            raise AssertionError("option value %r is not a power of two" % (x,))
+        return 1 - e
+
+    def cells():
+        mci = solver._integrator
+        ode = mci._integrator
+        if ode.system is not solver.rhs.rhs or mci._c_ops[0] is not solver._c_ops[0] \
+                or mci._n_ops[0] is not solver._n_ops[0]:
+            raise AssertionError("operators are no longer shared objects")
+        aH = _dec_cf(-ode.system(0.0).full()[0, 1].imag)
+        if nm:
+            aC = _dec_cf(8 - mci._c_ops[0](0.0).full()[1, 0].real ** 2, exact=False)
+            aN = _dec_cf(8 - mci._n_ops[0](0.0).full()[0, 0].real, exact=False)
+            aR = _dec_cf(solver._rates[0](0.0).real + 8)
+            aS = _dec_cf(8 - solver._rate_shift(0.0).real / 2)
+            aQ = _dec_cf(8 - solver._sqrt_shifted_rates[0](0.0).real ** 2, exact=False)
+        else:
+            aC = _dec_cf(mci._c_ops[0](0.0).full()[1, 0].real)
+            v = mci._n_ops[0](0.0).full()[0, 0].real
+            aN = _dec_cf(round(math.sqrt(v) * 1024) / 1024.0)
+            if (aN[0] + aN[1] / 1024.0) ** 2 != v:
+                raise AssertionError("n_op coefficient is not the square of a scripted one")
+            aR = aS = aQ = None
+        return aH, aC, aN, aR, aS, aQ
+
+    def opts():
+        mci = solver._integrator
+        ode = mci._integrator
+        return (lg(mci.options["norm_tol"]), lg(solver.options["norm_tol"]),
+                lg(ode.options["atol"]), lg(ode._ode_solver._integrator.atol))
+
+    def view():
+        aH, aC, aN, aR, aS, aQ = cells()
+        mso, _, _, prep = opts()
+        times = None
+        shift = aS
+        if nm:
+            pc = solver._martingale._precomputed_continuous_martingale
+            if pc:
+                ts = sorted(pc)
+                times = [int(round(t * TU)) for t in ts]
+                mu = pc[ts[-1]]
+                shift = _dec_cf(8 - math.log(mu) / (ts[-1] - ts[0]) / 2, exact=False)
+        return (aH, aC, aN, aR, shift, times, mso, prep)
+
+    out = []
+    with warnings.catch_warnings():
+        warnings.simplefilter("ignore")
+        for ev in case["evs"]:
+            v = None
+            if ev[0] == "run":
+                seen = []
+                real = type(solver)._run_one_traj
+
+                def wrapped(*a, _real=real, **k):
+                    if not seen:
+                        seen.append(view())
+                    return _real(solver, *a, **k)
+                solver._run_one_traj = wrapped
+                args = {k: x for k, x in zip("gh", ev[1]) if x is not None}
+                try:
+                    solver.run(psi, [ev[3] / TU] + [t / TU for t in ev[2]], ntraj=1, seeds=1,
+                               **({"args": args} if args or ev[1] != [None, None] else {}))
+                finally:
+                    del solver._run_one_traj
+                v = seen[0]
+            elif ev[0] == "step":
+                args = {k: x for k, x in zip("gh", ev[1]) if x is not None}
+                solver.start(psi, 0.0, seed=1)
+                solver.step(0.25, args=args)
+                v = view()
+            elif ev[0] == "item":
+                solver.options["atol" if ev[1] else "norm_tol"] = 2.0 ** -ev[2]
+            else:
+                d = {}
+                if ev[1] is not None:
+                    d["norm_tol"] = 2.0 ** -ev[1]
+                if ev[2] is not None:
+                    d["atol"] = 2.0 ** -ev[2]
+                solver.options = d
+            out.append((v, cells() + opts()))
+    return out
+
+
+def _cq_args(a):
+    return "(%s, %s)" % (copt(a[0], cz), copt(a[1], cz))
+
+
+def k4_expr(case, rebind):
+    evs = []
+    for ev in case["evs"]:
+        if ev[0] == "run":
+            evs.append("ERun %s %s" % (_cq_args(ev[1]), clist([ev[3]] + ev[2], cz)))
+        elif ev[0] == "step":
+            evs.append("EStep %s" % _cq_args(ev[1]))
+        elif ev[0] == "item":
+            evs.append("ESetItem %s %s" % (cbool(ev[1]), cz(ev[2])))
+        else:
+            evs.append("ESetDict %s %s" % (copt(ev[1], cz), copt(ev[2], cz)))
+    return ("trace {| f_forward := true; f_rebind := %s; f_nm_args_first := true |} "
+            "(construct %s %s %s %s) %s" % (
+                cbool(rebind), "KNM" if case["kind"] == "nm" else "KMC",
+                _cq_args([case["g"], case["h"]]), cz(case["so"]), cz(case["oo"]), clist(evs)))
+
+
+def k4_canon_model(v, nm):
+    def arg(x):
+        g, h = x
+        if g is None and h is None:
+            return None
+        return (g[1], h[1])
+
+    def unflat(t, n):
+        t = list(t)
+        return [(t[0], t[1])] + t[2:] if len(t) == n + 1 else t
+    out = []
+    for (vw, ob) in v:
+        ob = unflat(ob, 10)
+        o = tuple(arg(x) for x in ob[:6]) + tuple(ob[6:])
+        if vw is None:
+            w = None
+        else:
+            w = unflat(vw[1], 8)
+            times = None if w[5] is None else list(w[5][1])
+            w = tuple(arg(x) for x in w[:5]) + (times, w[6], w[7])
+        out.append((w, o))
+    return out
+
+
+# ======================================================================
+# K5  mixed initial ensembles (Model/C13_mix.v, Model/C16_mix.v)
+# ======================================================================
+def k5_case(rng):
+    counts = [rng.choice([1, 1, 2, 3]) for _ in range(rng.choice([1, 2, 3, 4]))]
+    n = sum(counts)
+    order = [j for j in range(n) if rng.random() < 0.85]
+    rng.shuffle(order)
+    return {"ent": rng.randrange(0, 1 << 40), "counts": counts, "order": order}
+
+
+def k5_impl(case):
+    import qutip as qt
+    N = 4
+    a = qt.destroy(N)
+    solver = qt.MCSolver(a.dag() * a, [a], options={"progress_bar": "", "method": "diag",
+                                                     "keep_runs_results": True, "store_states": True})
+    counts = case["counts"]
+    ics = [(qt.basis(N, k), 1.0 / len(counts)) for k in range(len(counts))]
+    smap = ScriptedMap(order=case["order"])
+    with patched_map(smap):
+        res = solver.run(ics, [0, 0.25, 0.5], ntraj=list(counts), seeds=case["ent"])
+    members = [int(np.argmax(np.abs(tr.states[0].full().ravel()))) for tr in res.trajectories]
+    return ([_sid(s) for s in res.seeds], members)
+
+
+def k5_expr(case):
+    return "mixed_observe %s %s %s" % (cz(case["ent"]), clist(case["counts"], cnat),
+                                        clist(case["order"], cnat))
+
+
+def k5_canon_model(v):
+    seeds, mem = v
+    return ([(e, tuple(k)) for e, k in seeds], [None if m is None else m[1] for m in mem])
 
 
 # ======================================================================
@@ -960,9 +1197,26 @@ class Oracle:
         r = P2.run(solver, n, seed)
         self.compare(P2, r, "reconf-other-tlist-and-e_ops", ids, extra)
         old = {k: solver.options[k] for k in opts}
-        for k, v in opts.items():
-            solver.options[k] = v
+        via_setter = self.rng.random() < 0.5
+        if via_setter:
+            solver.options = dict(opts)               # property setter: new options object
+        else:
+            for k, v in opts.items():
+                solver.options[k] = v
+        extra["via_setter"] = via_setter
         r = P.run(solver, n, seed)
+        if via_setter and kind in ("mc", "nm") and "atol" not in opts \
+                and not self.matches(P3, r) and self.matches(P, r):
+            self.nruns += 1
+            self.ctx.violation(
+                "solver_base.Solver.options.setter", "mc-integrator-keeps-old-options-object",
+                "solver.options = {solver-level keys only} is ignored by later trajectories: "
+                "run(seed) is bitwise the run with the old value and differs from a fresh "
+                "solver constructed with the new one",
+                {"spec": P.spec, "variant": "reconf-option-changed", "opts": opts})
+            for k, v in old.items():
+                solver.options[k] = v
+            return
         if kind in ("mc", "nm") and "atol" in opts and not self.matches(P3, r) \
                 and self.matches(P, r):
             # the run is exactly what the OLD option value gives: the new value
@@ -1408,11 +1662,12 @@ def run(ctx):
             orc.one_problem(gen_problem(r2, ["mc", "sse", "sme", "nm"][i % 4]),
                             ["scripted", "history", "nokeep", "permuted"])
 
-    vlib.standard_proof_step(ctx, ["Props/C13.vo"], ["Props/C13.v"], search)
+    vlib.standard_proof_step(ctx, ["Props/C13.vo", "Props/C13_conf.vo", "Props/C13_mix.vo"],
+                             ["Props/C13.v", "Props/C13_conf.v", "Props/C13_mix.v"], search)
 
     dist = {}
     # ---------------------------------------------------------------- corpus
-    corpus = {"k1": [], "k2": [], "k3": [], "oracle": []}
+    corpus = {"k1": [], "k2": [], "k3": [], "k4": [], "k5": [], "oracle": []}
     cdir = os.path.join(vlib.VERIF, "corpus", "C13")
     if os.path.isdir(cdir):
         for f in sorted(os.listdir(cdir)):
@@ -1444,18 +1699,42 @@ def run(ctx):
         except Exception as e:
             i3.append(("EXC", repr(e)[:200]))
     e3 = [k3_expr(c, True) for c in c3] + [k3_expr(c, False) for c in c3]
-    ctx.log("implementation traces: K1 %d, K2 %d, K3 %d" % (len(c1), len(c2), len(c3)))
+    # -------------------------------------------------------------------- K4
+    n4 = 60 if ctx.quick else 600
+    c4 = list(corpus["k4"]) + [k4_case(rng) for _ in range(n4)]
+    i4 = []
+    for c in c4:
+        try:
+            i4.append(k4_impl(c))
+        except Exception as e:
+            i4.append(("EXC", repr(e)[:200]))
+    e4 = [k4_expr(c, True) for c in c4] + [k4_expr(c, False) for c in c4]
+    # -------------------------------------------------------------------- K5
+    n5 = 60 if ctx.quick else 600
+    c5 = list(corpus["k5"]) + [k5_case(rng) for _ in range(n5)]
+    i5 = []
+    for c in c5:
+        try:
+            i5.append(k5_impl(c))
+        except Exception as e:
+            i5.append(("EXC", repr(e)[:200]))
+    e5 = [k5_expr(c) for c in c5]
+    ctx.log("implementation traces: K1 %d, K2 %d, K3 %d, K4 %d, K5 %d" % (
+        len(c1), len(c2), len(c3), len(c4), len(c5)))
     try:
-        vals = vlib.coq_eval_values("cases_C13", HEADER, e1 + e2 + e3, chunk=150)
+        vals = vlib.coq_eval_values("cases_C13", HEADER, e1 + e2 + e3 + e4 + e5, chunk=150)
     except RuntimeError as e:
         ctx.violation("corr:C13:model-eval", "coqc", "model evaluation failed",
                       {"log": str(e)}, found_input=False)
         vals = None
-    mism = {"k1": 0, "k2": 0, "k3": 0}
+    mism = {"k1": 0, "k2": 0, "k3": 0, "k4": 0, "k5": 0}
     if vals is not None:
         v1, v2 = vals[:len(e1)], vals[len(e1):len(e1) + len(e2)]
         v3t = vals[len(e1) + len(e2):len(e1) + len(e2) + len(c3)]
-        v3f = vals[len(e1) + len(e2) + len(c3):]
+        v3f = vals[len(e1) + len(e2) + len(c3):len(e1) + len(e2) + 2 * len(c3)]
+        v4t = vals[len(e1) + len(e2) + len(e3):len(e1) + len(e2) + len(e3) + len(c4)]
+        v4f = vals[len(e1) + len(e2) + len(e3) + len(c4):len(e1) + len(e2) + len(e3) + len(e4)]
+        v5 = vals[len(e1) + len(e2) + len(e3) + len(e4):]
         for c, (ent0, im), v in zip(c1, i1, v1):
             model = k1_canon_model(vlib.parse_coq_value(v))
             imc = [((o[0],) + tuple(
@@ -1511,19 +1790,60 @@ def run(ctx):
                           "from the model on a history of runs",
                           {"tie": "k3", "case": c, "impl": im, "model": mt})
         dist["k3/dt-leak-cases"] = leak_cases
+        stale = 0
+        for c, im, vt, vf in zip(c4, i4, v4t, v4f):
+            nm = c["kind"] == "nm"
+            mt = k4_canon_model(vlib.parse_coq_value(vt), nm)
+            mf = k4_canon_model(vlib.parse_coq_value(vf), nm)
+            ctx.count_case(("k4", json.dumps(c, sort_keys=True)), nontrivial=True)
+            ctx.cov["traces_validated_against_impl"] += 1
+            for ev in c["evs"]:
+                dist["k4/%s/%s" % (c["kind"], ev[0])] = dist.get("k4/%s/%s" % (c["kind"], ev[0]), 0) + 1
+            if mt != mf:
+                dist["k4/cases-telling-rebind"] = dist.get("k4/cases-telling-rebind", 0) + 1
+            if im == mt:
+                continue
+            if im == mf:
+                stale += 1
+                ctx.violation(
+                    "solver_base.Solver.options.setter", "mc-integrator-keeps-old-options-object",
+                    "solver.options = {solver-level keys only} creates a new options object and "
+                    "MCIntegrator keeps the old one: norm_tol / norm_steps / norm_t_tol / "
+                    "mc_corr_eps set this way are ignored by later trajectories (model with "
+                    "f_rebind=false matches, f_rebind=true does not)",
+                    {"tie": "k4", "case": c, "impl": im, "model_rebind_true": mt})
+                continue
+            mism["k4"] += 1
+            ctx.violation("corr:args/options propagation", "model-differs",
+                          "what the solver objects hold after a history of run/step/option "
+                          "changes differs from the model",
+                          {"tie": "k4", "case": c, "impl": im, "model": mt})
+        dist["k4/stale-options-cases"] = stale
+        for c, im, v in zip(c5, i5, v5):
+            model = k5_canon_model(vlib.parse_coq_value(v))
+            ctx.count_case(("k5", json.dumps(c, sort_keys=True)), nontrivial=len(c["order"]) > 0)
+            ctx.cov["traces_validated_against_impl"] += 1
+            dist["k5/members"] = dist.get("k5/members", 0) + len(c["counts"])
+            if model != im:
+                mism["k5"] += 1
+                ctx.violation("corr:multitraj._run_mixed", "model-differs",
+                              "seed / member-state assignment of a mixed initial ensemble "
+                              "differs from the model",
+                              {"tie": "k5", "case": c, "impl": im, "model": model})
     ctx.log("correspondence mismatches: %r" % mism)
     ctx.sample({"k1_case": c1[-1], "impl": i1[-1][1]})
     ctx.sample({"k2_case": c2[-1], "impl": i2[-1]})
     ctx.sample({"k3_case": c3[-1], "impl": i3[-1]})
+    ctx.sample({"k4_case": c4[-1], "impl": i4[-1]})
 
     # ---------------------------------------------------------------- oracle
-    budget = 60 if ctx.quick else 480
+    budget = 45 if ctx.quick else 480
     t0 = time.time()
     for spec in corpus["oracle"]:
         orc.one_problem(spec)
     kinds = ["mc", "sse", "sme", "nm", "mc", "sme"]
     nprob = 0
-    while time.time() - t0 < budget and nprob < (120 if ctx.quick else 2500):
+    while time.time() - t0 < budget and nprob < (100 if ctx.quick else 2500):
         spec = gen_problem(orc.rng, kinds[nprob % len(kinds)])
         orc.one_problem(spec)
         nprob += 1
@@ -1556,6 +1876,18 @@ def replay(ctx, payload):
         im = k3_impl(d["case"])
         v = vlib.coq_eval_values("replay_C13", HEADER, [k3_expr(d["case"], True)])
         if k3_canon_model(vlib.parse_coq_value(v[0]), d["case"]["nsc"]) != im:
+            ctx.violation(payload["site"], payload["signature"], payload["what"], d)
+        return
+    if d.get("tie") == "k5":
+        im = k5_impl(d["case"])
+        v = vlib.coq_eval_values("replay_C13", HEADER, [k5_expr(d["case"])])
+        if k5_canon_model(vlib.parse_coq_value(v[0])) != im:
+            ctx.violation(payload["site"], payload["signature"], payload["what"], d)
+        return
+    if d.get("tie") == "k4":
+        im = k4_impl(d["case"])
+        v = vlib.coq_eval_values("replay_C13", HEADER, [k4_expr(d["case"], True)])
+        if k4_canon_model(vlib.parse_coq_value(v[0]), d["case"]["kind"] == "nm") != im:
             ctx.violation(payload["site"], payload["signature"], payload["what"], d)
         return
     if d.get("tie") == "k1":
